@@ -193,6 +193,19 @@ def run(R):
     H.close()
     if M:
         M.close()
+    # Model/JsonText.v (serde_json's printers and parser) against the real serde_json: printed texts byte for byte, parsed values,
+    # rejected texts, and print_pretty (enc_plan p) against to_string_pretty(&Plan)
+    env = dict(core.ENV, RN_HARNESS=str(hp), RN_ROCQ=str(core.ROCQ), RN_WORK=str(core.BUILD / "jsontext_work"))
+    rc, txt, dt = core.sh(["python3", str(core.VERIF / "lib" / "jsontext_difftest.py"), str(R.seed + 17), "50" if R.tier == "quick" else "1200"],
+                          env=env, timeout=3000)
+    m1 = __import__("re").search(r"compared (\d+) texts", txt)
+    m2 = __import__("re").search(r"DISAGREEMENTS: (\d+)", txt)
+    dist["json_text_model"] = {"texts_compared": int(m1.group(1)) if m1 else 0, "disagreements": int(m2.group(1)) if m2 else None}
+    if not m1 or not m2 or int(m1.group(1)) == 0:
+        disagreements.append({"why": "the JSON text differential run did not complete", "log": txt[-1500:]})
+    elif int(m2.group(1)) > 0:
+        disagreements.append({"why": "Model/JsonText.v differs from serde_json", "log": txt[txt.find("DISAGREEMENTS"):][:2500]})
+    R.disagreements = len(disagreements)
     decide(R, proved, mp is not None, disagreements, failures)
 
 
